@@ -29,7 +29,7 @@ from .common import EXIT_INCONCLUSIVE, EXIT_OK, EXIT_VIOLATION, LOGS, NIGHTLY, R
 from .mir import Panic, State, Unsupported, vbool, venum, vopaque
 from .mir_engine import cvc5_solver, z3_solver
 
-LIGHT_FLAGS = ["-Zunpretty=mir", "-Zmir-opt-level=1", "-Zinline-mir=no", "-C", "debug-assertions=off", "-C", "overflow-checks=on"]
+from .c05m import dump_core_light  # noqa: E402
 
 CONTRACT_TEXT = [
     "engine M part: events, the model, commands and channels are opaque tokens (dataflow identity); Receiver::receive answers Some(EV) or None, Request::resolve Ok or Err; "
@@ -38,21 +38,6 @@ CONTRACT_TEXT = [
     "exactly-once, in-order application of events composes this step with: the capability channel being FIFO (crossbeam's contract; model validated natively), the order in which a "
     "Command hands over events (Kani, C01 harnesses) and the Core's hosting loop forwarding item by item (engine M, C05/C01 unit)",
 ]
-
-
-def dump_core_light(prop):
-    tdir = os.path.join(TARGET, "mir03")
-    for f in glob.glob(os.path.join(tdir, "debug", ".fingerprint", "crux_core-*")):
-        shutil.rmtree(f, ignore_errors=True)
-    cmd = ["cargo", "rustc", "--offline", "--lib", "--target-dir", tdir, "--"] + LIGHT_FLAGS
-    t0 = time.time()
-    p = subprocess.run(cmd, cwd=os.path.join(REPO, "crux_core"), env=env_offline({"RUSTUP_TOOLCHAIN": NIGHTLY}), capture_output=True, text=True, timeout=1800)
-    os.makedirs(os.path.join(LOGS, prop), exist_ok=True)
-    open(os.path.join(LOGS, prop, "mir-dump-crux_core-light.log"), "w").write(p.stderr)
-    if p.returncode != 0 or "\nfn " not in p.stdout:
-        return None, p.stderr[-600:], time.time() - t0
-    open(os.path.join(TARGET, "crux_core_light.mir"), "w").write(p.stdout)
-    return p.stdout, "", time.time() - t0
 
 
 class ContractsCore:
@@ -344,8 +329,8 @@ def run_units(prop, want_hosting_loop):
         res["validated_inputs"] += len(runs)
         deviating = [(p_, r_) for p_, r_ in sorted(runs.items()) if r_.get("direct") != r_.get("core")]
         res["notes"].append(f"native differential run: {len(runs)} scripted programs (one a chain of events caused by events, expected outcome by hand) directly and under a real Core: {len(deviating)} deviations")
-        if len(runs) < 8:
-            inconclusive("native host driver produced fewer than 8 programs")
+        if len(runs) < 10:
+            inconclusive("native host driver produced fewer than 10 programs")
         if failed:
             if deviating:
                 p_, r_ = deviating[0]
